@@ -59,7 +59,9 @@
 (*    FifoOrder              Dequeue and ProcessAll take requests in arrival *)
 (*                           order (a request that failed and was re-queued  *)
 (*                           goes to the back); a request is skipped only if *)
-(*                           it may have expired                             *)
+(*                           it may have expired; the position of a request  *)
+(*                           whose first submission has expired is not       *)
+(*                           constrained                                     *)
 (*    ExpireOnlyExpired      a request that has not expired is never lost    *)
 (*                           (queue length >= number of surely live ones)    *)
 (* S7 "Resolution strategy: 1. same MAC, keep the most recent one 2.        *)
@@ -178,7 +180,11 @@ Skip(q, ord, i) == [m \in DOMAIN q |-> IF \E j \in 1..(i - 1) : ord[j] = m THEN 
 \* effect of the operation itself (at offset 0) on [q, ord]
 OpEffect(cfg, g, e) ==
   IF e.op = "enq" /\ e.acc THEN
-       IF g.q[e.a].q THEN [q |-> [g.q EXCEPT ![e.a].lo = 0], ord |-> g.ord]
+       IF g.q[e.a].q THEN
+            \* merged into the queued request - unless that one has meanwhile expired and was dropped, in which case this
+            \* is a new arrival at the back: if the first submission has expired the position is taken to be the back
+            [q |-> [g.q EXCEPT ![e.a].lo = 0],
+             ord |-> IF Expired(cfg, g.q[e.a].hi, 0) THEN Append(Without(g.ord, e.a), e.a) ELSE g.ord]
        ELSE [q |-> [g.q EXCEPT ![e.a].q = TRUE, ![e.a].hi = 0, ![e.a].lo = 0], ord |-> Append(g.ord, e.a)]
   ELSE IF e.op = "deq" /\ e.ret > 0 THEN
        [q |-> [Skip(g.q, g.ord, IndexOf(g.ord, e.ret)) EXCEPT ![e.ret].q = FALSE, ![e.ret].hi = 0, ![e.ret].lo = 0],
@@ -198,7 +204,7 @@ OpClauses(cfg, g, e) ==
   ELSE IF e.op = "deq" THEN
        IF e.ret = 0 THEN (IF LiveAhead(cfg, g.q, g.ord, Len(g.ord) + 1, 0) # {} THEN {"FifoOrder"} ELSE {})
        ELSE IF ~g.q[e.ret].q THEN {"AtMostOnce"}
-       ELSE IF LiveAhead(cfg, g.q, g.ord, IndexOf(g.ord, e.ret), 0) # {} THEN {"FifoOrder"} ELSE {}
+       ELSE IF ~Expired(cfg, g.q[e.ret].hi, 0) /\ LiveAhead(cfg, g.q, g.ord, IndexOf(g.ord, e.ret), 0) # {} THEN {"FifoOrder"} ELSE {}
   ELSE {}
 
 \* an upper bound of the queue length: the contract's q is a superset of the queue's content
@@ -214,7 +220,7 @@ RqOne(cfg, acc, r) ==
         bad |-> acc.bad
                 \cup (IF ~x.q THEN {"AtMostOnce"} ELSE {})
                 \cup (IF x.q /\ Expired(cfg, x.lo, r.off) THEN {"NoProcessAfterExpiry"} ELSE {})
-                \cup (IF x.q /\ i > 0 /\ LiveAhead(cfg, acc.q, acc.ord, i, r.off) # {} THEN {"FifoOrder"} ELSE {})]
+                \cup (IF x.q /\ i > 0 /\ ~Expired(cfg, x.hi, r.off) /\ LiveAhead(cfg, acc.q, acc.ord, i, r.off) # {} THEN {"FifoOrder"} ELSE {})]
      ELSE IF r.ok \/ ~x.fl \/ x.q \/ Expired(cfg, x.flo, r.off) THEN
        [acc EXCEPT !.q[r.m].fl = FALSE, !.q[r.m].fhi = 0, !.q[r.m].flo = 0]
      ELSE      \* failed, still valid: "Re-queue if still valid" (to the back).  If the queue may have filled up
